@@ -576,6 +576,39 @@ def rule_range(ctx):
               ctx.key(f, br, 'branch selection'), 'count < 0 selects the natural-reorg search',
               f'natural/forced selection is not `count < 0`: {norm(br.test)}', loc=ctx.loc(f, br))
     n += 1
+    # the backwards search stops at the first window whose leading hashes match: start moves to the first differing height
+    wl = [s for s in br.body if isinstance(s, ast.While)]
+    ok, why = False, 'no search loop on the natural branch'
+    if len(wl) == 1:
+        brks = [b for b in walk_own(wl[0]) if isinstance(b, ast.Break)]
+        why = 'expected one `break` in the search loop'
+        if len(brks) == 1:
+            conds = pr.control_conditions(brks[0], wl[0])
+            d_ = df.defs(f)
+            why = 'the break is not guarded by a single test'
+            if len(conds) == 1 and conds[0][1]:
+                t = conds[0][0]
+                nv = None
+                if isinstance(t, ast.Name):
+                    nv = t.id
+                else:
+                    vc = q.var_vs_const(t)
+                    if vc and ((vc[1], vc[2]) in (('>', 0), ('>=', 1), ('!=', 0))):
+                        nv = vc[0]
+                why = f'the search stops under `{norm(t)}`, not as soon as the window starts with matching hashes'
+                if nv is not None:
+                    nd = d_.get(nv, [])
+                    from_diff = len(nd) == 1 and isinstance(nd[0][1], ast.Call) and isinstance(nd[0][1].func, ast.Name) \
+                        and any(g_.name == nd[0][1].func.id and g_.parent is f for g_ in ctx.repo.funcs.values())
+                    moved = [a for a in conds[0][2].body if isinstance(a, ast.AugAssign) and isinstance(a.op, ast.Add)
+                             and norm(a.target) == sv and norm(a.value) == nv]
+                    ok = from_diff and len(moved) == 1
+                    why = 'the matched-prefix length does not come from the first-difference helper' if not from_diff else \
+                        'start is not advanced by the matched-prefix length'
+    ctx.check(ok, 'C03.RANGE', ctx.key(f, br, 'search stops at the first matching prefix'),
+              'the search stops at the first window with a non-empty matching prefix and start moves to the first differing height',
+              why + ': the reorganisation then backs out more blocks than the fork is deep, beyond the undo window', loc=ctx.loc(f, br))
+    n += 1
     # _reorg_hashes reads exactly that range from the DB
     g = ctx.func('bp', 'BlockProcessor._reorg_hashes')
     cr = calls_to(ctx, g, g.node, f.key)
@@ -727,7 +760,7 @@ def run(ctx):
     ctx.rule('C03.REVERSE', lambda: c13.rule_reverse(ctx, 'C03.REVERSE'), 3)
     # 'a fork of any depth within the configured reorg limit': undo information must exist for that window (C15)
     from . import c15
-    c15.run(ctx)
+    c15.run(ctx, standalone=False)
     # the backup flush truncates history with the decremented count in the same job (shared with C05 / C06)
     from ..effects import InlineGraph
     from .flushcommon import commit_points
